@@ -82,6 +82,7 @@ inductive Expr where
   | tmpl (parts : List String) (es : List Expr)
   | paren (e : Expr)
   | cond (c a b : Expr)
+  | assign (lhs rhs : Expr)                    -- lhs = rhs
   deriving Repr, Inhabited
 
 /-- class member modifiers that are purely static -/
@@ -100,6 +101,7 @@ inductive Member where
       (overloads : List (List Param × Ret)) (locals : List Stmt) (body : Expr)
   | indexSig (key : String) (kty vty : Ty)    -- [k: string]: T     (no run-time meaning)
   | declareField (name : String) (ty : Ty)    -- declare x: T;      (no run-time meaning)
+  | staticBlock (body : List Stmt)            -- static { … }       (runs when the class is defined)
 
 inductive Stmt where
   | decl (kw : String) (x : String) (definite : Bool) (ty : Option Ty) (init : Expr)
@@ -129,6 +131,7 @@ def stripE : Expr → Expr
   | .str s => .str s
   | .var x => .var x
   | .bin op a b => .bin op (stripE a) (stripE b)
+  | .assign a b => .assign (stripE a) (stripE b)
   | .call f _ args => .call (stripE f) [] (stripEs args)
   | .newE c _ args => .newE c [] (stripEs args)
   | .arrow _ ps _ body => .arrow [] (ps.map stripParam) .none (stripE body)
@@ -161,6 +164,7 @@ def stripMember : Member → Option Member
     some (.method noMods st name [] (ps.map stripParam) .none [] (stripSs locals) (stripE body))
   | .indexSig _ _ _ => none
   | .declareField _ _ => none
+  | .staticBlock body => some (.staticBlock (stripSs body))
 def stripMs : List Member → List Member
   | [] => []
   | m :: ms => match stripMember m with
@@ -199,6 +203,7 @@ def plainE : Expr → Bool
   | .str _ => true
   | .var _ => true
   | .bin _ a b => plainE a && plainE b
+  | .assign a b => plainE a && plainE b
   | .call f targs args => plainE f && targs.isEmpty && plainEs args
   | .newE _ targs args => targs.isEmpty && plainEs args
   | .arrow tps ps ret body => tps.isEmpty && ps.all plainParam && plainRet ret && plainE body
@@ -231,6 +236,7 @@ def plainMember : Member → Bool
     plainMods m && tps.isEmpty && ps.all plainParam && plainRet ret && overloads.isEmpty && plainSs locals && plainE body
   | .indexSig _ _ _ => false
   | .declareField _ _ => false
+  | .staticBlock body => plainSs body
 def plainMs : List Member → Bool
   | [] => true
   | m :: ms => plainMember m && plainMs ms
@@ -318,6 +324,7 @@ def renderE : Expr → String
   | .str s => "'" ++ s ++ "'"
   | .var x => x
   | .bin op a b => "(" ++ renderE a ++ " " ++ op ++ " " ++ renderE b ++ ")"
+  | .assign a b => "(" ++ renderE a ++ " = " ++ renderE b ++ ")"
   | .call f targs args => renderE f ++ renderTArgs targs ++ "(" ++ sepBy ", " (renderEs args) ++ ")"
   | .newE c targs args => "new " ++ c ++ renderTArgs targs ++ "(" ++ sepBy ", " (renderEs args) ++ ")"
   | .arrow tps ps ret body => "(" ++ renderTParams tps ++ renderParams ps ++ renderRet ret ++ " => " ++ renderE body ++ ")"
@@ -362,6 +369,7 @@ def renderMember : Member → String
       ++ " { " ++ renderSs locals ++ "return " ++ renderE body ++ "; }"
   | .indexSig k kt vt => "[" ++ k ++ ": " ++ renderTy kt ++ "]: " ++ renderTy vt ++ ";"
   | .declareField name ty => "declare " ++ name ++ ": " ++ renderTy ty ++ ";"
+  | .staticBlock body => "static { " ++ renderSs body ++ "}"
 def renderMembers : List Member → List String
   | [] => []
   | m :: ms => renderMember m :: renderMembers ms
